@@ -104,7 +104,16 @@ def run(ctx):
                 if bb not in live:
                     continue
                 leaf = ev.call_args(bb)[2]
-                leaf = W.subst_fields(leaf, ("param", fn.path, 1), hfields)
+                # the handler's fields as its constructor sets them for this version (the leaf may be chosen once, at construction)
+                hf_v = hfields
+                vpar = [i for i in range(1, nfn.nargs + 1) if nfn.locals[i]["ty"].replace("&", "").strip().endswith("version::Version")]
+                if len(vpar) == 1:
+                    ev_n = Ev(P, nfn, binds={vpar[0]: ("enum", VERSION, v)})
+                    ev_n.live()
+                    agg = ev_n.rvalue(nfn.blocks[nbb].stmts[nidx]["rv"], (nbb, nidx))
+                    if isinstance(agg, tuple) and agg[0] == "agg" and len(agg) > 3 and agg[3]:
+                        hf_v = {n: W.expand(x) for n, x in zip(agg[3], agg[2])}
+                leaf = W.subst_fields(leaf, ("param", fn.path, 1), hf_v)
                 kind = "other"
                 if leaf[0] == "param" and leaf[1] == NEW:
                     ie = iter_elem(W, nargs[leaf[2] - 1])
